@@ -163,15 +163,45 @@ def run(tier, seed, replay):
                 if sv.get("must_getter"):
                     h += [{"op": "getter", "name": "Must" + g}, {"op": "getterctx", "ctx": 1, "name": "Must" + g + "InContext"}]
         hs[k] = h
+    # one constructor-built service per scope with every getter variant, in two contexts (instance identity is observable)
+    idcfg = {"services": {n: {"constructor": c, "scope": sc, "getter": "Get" + n.capitalize(), "must_getter": True, "type": "*T"}
+                          for n, c, sc in (("sh", "NewA", "shared"), ("cx", "NewB", "contextual"), ("ns", "MakeC", "non_shared"))}}
+    idsp = common.mk_spec(len(rs), [idcfg], keep_out=True)
+    idsp["cfg"] = idcfg
+    idsp["what"] = ["c13rt-identity"]
+    idh = []
+    for n, sv in idcfg["services"].items():
+        g = sv["getter"]
+        idh += [{"op": "get", "name": n}, {"op": "getter", "name": g}, {"op": "getterctx", "ctx": 1, "name": g + "InContext"}, {"op": "getter", "name": "Must" + g},
+                {"op": "getterctx", "ctx": 1, "name": "Must" + g + "InContext"}, {"op": "getterctx", "ctx": 2, "name": g + "InContext"},
+                {"op": "getterctx", "ctx": 2, "name": "Must" + g + "InContext"}, {"op": "getterctx", "ctx": 1, "name": "Must" + g + "InContext"}]
+    rs.append(idsp)
+    hs.append(idh)
     robs, rl, ml, racc = rtcommon.run_histories(out, tooldir, env, rs, hs, "C13 getters at run time", "C13", compare=True)
     strip = lambda s: _re.sub(r";#\d+\)", ";#)", s)
     gstat = {"getter_calls": 0, "must_panics": 0}
+    top_serial = lambda line: (_re.findall(r";#(\d+)\)", line) or [None])[-1]
     for k in racc:
         last_get = None
+        cur = None
+        ident = {}
         for o, line in zip(hs[k], rl[k]):
             if o["op"] == "get":
                 last_get = line
+                cur = o["name"]
+                ident = {}
                 continue
+            # identity: every getter variant of a shared service returns the one instance; the InContext variants of a contextual
+            # service return, within one context, the one instance of that context
+            sc = (rs[k]["cfg"]["services"].get(cur) or {}).get("scope")
+            if line.startswith("O(") and sc in ("shared", "contextual"):
+                key = "shared" if sc == "shared" else ("ctx%s" % o.get("ctx") if o["op"] == "getterctx" else None)
+                if key is not None:
+                    if key in ident and ident[key] != top_serial(line):
+                        out.violation("getter-identity", "%s of the %s service %s returns another instance (#%s) than an earlier getter of the same %s (#%s)" % (
+                            o["name"], sc, cur, top_serial(line), "container" if sc == "shared" else "context", ident[key]),
+                            dict(common.slim(rs[k], robs[k]), history=hs[k], results=rl[k]))
+                    ident.setdefault(key, top_serial(line))
             gstat["getter_calls"] += 1
             rep = dict(common.slim(rs[k], robs[k]), history=hs[k], results=rl[k])
             if line.startswith("?(") and "nomethod" in line:
